@@ -129,7 +129,7 @@ def gen_specs(rng, tier):
   biases = ["none", "fixed", "po2"]
   k = 0
   # (a) operand-pair grid, single layer
-  for wk in wkinds:
+  for wk in wkinds * (1 if tier == "quick" else 4):
     for pre in pres:
       if tier == "quick" and (k % 2 == 1) and wk not in ("fixed", "fixed_mostneg") and pre not in (None, "relu"):
         k += 1
@@ -152,8 +152,13 @@ def gen_specs(rng, tier):
                     layers=[dict(w="fixed", b="none", act=None, act_mode=None, kind="dense")]))
   specs.append(dict(stream="po2_mv1", family="dense", pre="po2_mv1",
                     layers=[dict(w="fixed", b="none", act=None, act_mode=None)]))
+  # auto_po2 depthwise kernel with depth_multiplier 2: QTools asserts (the model must reject it too)
+  specs.append(dict(stream="dw_auto_dm2", family="depthwise", pre=None,
+                    layers=[dict(w="auto_po2", b="fixed", act=None, act_mode=None, dm=2)]))
+  specs.append(dict(stream="dw_auto_dm1", family="depthwise", pre="relu",
+                    layers=[dict(w="auto_po2", b="fixed", act=None, act_mode=None, dm=1)]))
   # (d) chains: layer.activation vs separate QActivation, Flatten between conv and dense
-  n_chain = 8 if tier == "quick" else 40
+  n_chain = 8 if tier == "quick" else 120
   for _ in range(n_chain):
     fam = fams[int(rng.integers(0, 4))]
     acts = ["relu", "bits", "relu", "ternary", "relu_po2"]
@@ -164,7 +169,7 @@ def gen_specs(rng, tier):
     specs.append(dict(stream="chain", family=fam, pre=[None, "relu", "bits"][int(rng.integers(0, 3))],
                       layers=[l1, l2], flatten_between=fam != "dense"))
   # (e) more random single layers
-  n_rand = 10 if tier == "quick" else 120
+  n_rand = 10 if tier == "quick" else 400
   for _ in range(n_rand):
     specs.append(dict(stream="random", family=fams[int(rng.integers(0, 4))],
                       pre=pres[int(rng.integers(0, len(pres)))],
@@ -301,7 +306,7 @@ def build(rng, spec, idx):
       lyr = QConv2D(int(rng.choice([1, 2, 5])), (kh, kw_), kernel_quantizer=mk(wspec), **common)
       cls = "QConv2D"
     else:
-      lyr = QDepthwiseConv2D((kh, kw_), depth_multiplier=int(rng.choice([1, 1, 2])),
+      lyr = QDepthwiseConv2D((kh, kw_), depth_multiplier=ls.get("dm", int(rng.choice([1, 1, 2]))),
                              depthwise_quantizer=mk(wspec), **common)
       cls = "QDepthwiseConv2D"
     x = lyr(x)
@@ -509,10 +514,19 @@ def run(run: core.Run, tier: str):
         b.nodes[ni] = node
     # ---- stream 1: the real QTools
     src_q = mk(b.src_spec)
-    with quiet():
-      qt = run_qtools.QTools(model, process="horowitz", source_quantizers=[src_q], is_inference=False,
-                             weights_path=None, keras_quantizer="fp32", keras_accumulator="fp32",
-                             for_reference=False)
+    try:
+      with quiet():
+        qt = run_qtools.QTools(model, process="horowitz", source_quantizers=[src_q], is_inference=False,
+                               weights_path=None, keras_quantizer="fp32", keras_accumulator="fp32",
+                               for_reference=False)
+    except AssertionError:
+      # adjust_accumulator_for_auto_po2: "depth_multiplier must be 1" — the model must reject it too
+      run.case(("rejected", spec["stream"], spec["family"], idx))
+      run.count("qtools_raises_AssertionError")
+      chain_lines.append({"op": "chain", "src": qk_json(src_q), "nodes": b.nodes})
+      chain_meta.append((idx, spec, ("rejected",), None, b))
+      tf.keras.backend.clear_session()
+      continue
     lmap = qt._layer_map["layer_data_type_map"]
     key = (spec["stream"], spec["family"], label(b.src_spec),
            tuple((it["kind"], it.get("cls"), label(it.get("wspec")), label(it.get("bspec")),
@@ -671,6 +685,10 @@ def run(run: core.Run, tier: str):
   for (idx, spec, key, impl_reports, b), o in zip(chain_meta, outs):
     run.compared += 1
     ok = True
+    if impl_reports is None:
+      if o.get("err") != "AssertionError":
+        run.disagree("chain_types", {"model": idx, "nodes": b.nodes}, {"err": "AssertionError"}, o)
+      continue
     if "err" in o:
       run.disagree("chain_types", {"model": idx, "key": str(key)}, impl_reports, o)
       mirrored[idx] = False
@@ -712,7 +730,7 @@ def run(run: core.Run, tier: str):
     run.count("judged_" + meta["site"])
     if o["bad"]:
       failed[(meta["model"], meta["pos"], meta["site"])] = True
-  reports_of = {idx: impl_reports for (idx, _, _, impl_reports, _) in chain_meta}
+  reports_of = {idx: impl_reports for (idx, _, _, impl_reports, _) in chain_meta if impl_reports is not None}
   for meta, line, o in zip(judge_meta, judge_lines, outs):
     if not o["bad"]:
       continue
